@@ -177,9 +177,10 @@ Theorem C17_fit_ok_same_problem : forall a b' Xf thf b0 b,
 Proof. exact fit_ok_same_problem. Qed.
 Print Assumptions C17_fit_ok_same_problem.
 
-(** what the per-case clause means: no intercept -> intercept_ = 0 and the normal equations of [X];
-    positive -> slope >= 0, gradient >= 0 where the slope entry is 0, = 0 where it is positive *)
-Theorem C17_fit_ok_sound : forall cfg Xf thf b0 b, fit_ok cfg Xf thf b0 b = true ->
+(** what the per-case clause means for the other problems: no intercept -> intercept_ = 0 and the normal
+    equations of [X]; positive -> slope >= 0, gradient >= 0 where the slope entry is 0, = 0 where it is
+    positive ([grad_lim] = 1e-9 of (sum |column|) * (sum of the row scales)) *)
+Theorem C17_fit_ok_sound : forall cfg Xf thf b0 b, default_problem cfg = false -> fit_ok cfg Xf thf b0 b = true ->
   (cf_fit_intercept cfg = false -> b0 == 0)
   /\ (cf_fit_intercept cfg = true -> Qabs (grad Xf thf b0 b 0) <= grad_lim Xf thf b0 b 0)
   /\ forall j, (1 <= j <= length b)%nat ->
